@@ -15,8 +15,8 @@
           (EncodeReplaceUnknown alone / padded), dec (Decode of the code word), len, blo, bhi
    dec    a byte string through Decode (via = api) or through SELECT _cs X'..' (via = sql)
    enc    an arbitrary byte string (well-formed UTF-8 or not) through Encode / EncodeReplaceUnknown
-   sql    a string through CONVERT(.. USING cs), HEX of it, the nested conversion back, CAST(.. AS CHAR
-          CHARACTER SET cs), and a VARCHAR column of the character set
+   sql    a string through CONVERT(.. USING cs) (its value, HEX / CHAR_LENGTH / LENGTH of it, the nested
+          conversion back), CAST(.. AS CHAR CHARACTER SET cs), and a VARCHAR column of the character set
 
    VERDICTS (all from Charset.tla):
    * the ranges tile 0..10FFFF exactly; no fact of any range is a panic; a range is either entirely
@@ -30,7 +30,9 @@
      table sets: accepted iff the recorded table's on-the-fly decoder accepts, same code points, and
      the re-encoding gives the bytes back;
    * Encode of arbitrary bytes: never a panic; for well-formed UTF-8 the strict / lenient string law;
-   * SQL: the string laws EncStrReplace / Replaced, or for the column: stored unchanged when every
+   * SQL: the string laws -- HEX shows EncStrReplace (the code words), LENGTH their number, CHAR_LENGTH the
+     number of characters, and the value itself (also after converting back) is Replaced (the input with
+     '?' substituted), independent of how the engine represents it; for the column: stored unchanged when every
      character is representable, otherwise refused or stored with '?'.
    A disagreement is printed as MM <json> with the set of deviating aspects (`bad`), then the
    validation goes on with the next event. *)
@@ -197,8 +199,13 @@ JudgeSql(e, i) ==
     LET c == e.cs
         s == e.s
         ok == IF Kind(c) = "table" /\ QMark \notin DOMAIN tab THEN TRUE
-              ELSE (CASE e.form \in {"conv", "hexconv", "cast"} -> e.out = "rows" /\ e.raw = ExpReplace(c, s)
-                      [] e.form = "nested" -> e.out = "rows" /\ (IF Kind(c) = "pass" THEN e.raw = Utf8Str(s) ELSE e.cps = ExpReplaced(c, s))
+              ELSE (CASE e.form \in {"hexconv", "cast"} -> e.out = "rows" /\ e.raw = ExpReplace(c, s)          \* HEX shows the code words
+                      \* the VALUE of CONVERT(s USING cs), and of the conversion back, is a string like any other: the
+                      \* input with '?' for the unrepresentable characters (= the code words decoded).  The code words
+                      \* themselves are what HEX / LENGTH / the wire show, never what the value holds.
+                      [] e.form \in {"conv", "nested"} -> e.out = "rows" /\ (IF Kind(c) = "pass" THEN e.raw = Utf8Str(s) ELSE e.cps = ExpReplaced(c, s))
+                      [] e.form = "convchars" -> e.out = "rows" /\ e.n = Len(s)
+                      [] e.form = "convbytes" -> e.out = "rows" /\ e.n = Len(ExpReplace(c, s))
                       [] e.form \in {"col", "colhex", "colchars", "colbytes"} -> ColOK(e, c, s)
                       [] OTHER -> FALSE)
     IN IF ok THEN TRUE
